@@ -214,7 +214,7 @@ CHECKS = {
         category="exploration", design="DESIGN.md §3 C20",
         technique="model-based testing of generated operation histories against a dict reference model",
         text="Generated histories (up to 30 / 50 steps, 6-key universe) over PickledDict (full life cycle incl. close/open, "
-             "use-after-close, create-over-existing, open-missing, from_dict from dicts and dict subclasses and its independence) and DBMDict (one open session, "
+             "use-after-close, create-over-existing, open-missing, from_dict from dicts and dict subclasses and its independence, bytearray values changed in place before a close) and DBMDict (one open session, "
              "use-after-close at the end) are compared with a plain dict after every step.",
         note="Only dbm.dumb exists here, so DBMDict reopen/path errors are outside the stated scope; bytearray aliasing is "
              "not asserted."),
